@@ -1,8 +1,11 @@
 use std::collections::HashMap;
 use std::fmt::{self, Write};
 use std::mem;
+#[cfg(not(indicatif_verif))]
 #[cfg(not(target_arch = "wasm32"))]
 use std::time::Instant;
+#[cfg(indicatif_verif)]
+use verif_simrt::time::Instant;
 
 use console::{measure_text_width, Style};
 #[cfg(feature = "unicode-segmentation")]
